@@ -60,14 +60,26 @@ def default(obj: Any, default_: object = "", *, allow_false: bool = False) -> An
 
 
 @with_environment
-@functools.lru_cache(maxsize=10)
-def date(  # noqa: PLR0912 PLR0911
+def date(
     dat: datetime.datetime | str | int,
     fmt: str,
     *,
     environment: Environment,
 ) -> str:
     """Return a string representation of _dat_ using format string _fmt_."""
+    if isinstance(dat, str) and dat in ("now", "today"):
+        # The current time must not be served from the cache.
+        dat = datetime.datetime.now()
+    return _date(dat, fmt, environment=environment)
+
+
+@functools.lru_cache(maxsize=10)
+def _date(  # noqa: PLR0912 PLR0911
+    dat: datetime.datetime | str | int,
+    fmt: str,
+    *,
+    environment: Environment,
+) -> str:
     if is_undefined(dat):
         return ""
 
